@@ -37,7 +37,7 @@ for pid in ALL:
         "engine": "gv",
         "level_claimed": {
             "category": "exploration",
-            "text": f.get("LEVEL_TEXT", "Generated-input search against an explicit oracle; held on everything explored, no proof of absence."),
+            "text": f.get("LEVEL_TEXT", "Exploration: generated-input search against an explicit oracle (" + f.get("TECHNIQUE", "property-based testing") + "). The property held on every generated / enumerated case; this is not a proof of absence. Bounds, case counts, the non-triviality rule, the label distribution and samples are in the evidence file; enumerated sub-domains are marked exhaustive there."),
             "design_ref": f.get("DESIGN_REF", "DESIGN.md section 4, " + pid),
         },
         "level_note": f.get("LEVEL_NOTE", "; ".join(f.get("ASSUMPTIONS", []))),
